@@ -13,7 +13,11 @@ S_V01 = "https://in-toto.io/Statement/v0.1"
 PRED_TYPES = [P_LINK, P_SLSA1, P_SLSA2]
 
 TIMESTAMPS = ["2020-08-19T08:38:00Z", "1985-04-12T23:20:50.52Z", "1996-12-19T16:39:57-08:00", "2024-02-29T12:00:00+05:30",
-              "2020-01-01T00:00:00.999999999Z", "1990-12-31T23:59:59Z", "2020-08-19T08:38:00+00:00", "2021-06-30T23:59:59.5+14:00"]
+              "2020-01-01T00:00:00.999999999Z", "1990-12-31T23:59:59Z", "2020-08-19T08:38:00+00:00", "2021-06-30T23:59:59.5+14:00",
+              # leap seconds, lower-case / space separators, extreme years and offsets
+              "2016-12-31T23:59:60Z", "2016-12-31T23:59:60.25Z", "1990-06-30T23:59:60+00:00", "2015-06-30T19:59:60-04:00",
+              "2020-08-19t08:38:00z", "0001-01-01T00:00:00Z", "9999-12-31T23:59:59.999999999Z", "2020-02-29T23:59:59-23:59",
+              "2020-08-19T08:38:00.000000001+00:01", "2020-08-19T08:38:00.100Z", "2020-08-19T08:38:00.000Z"]
 BAD_TIMESTAMPS = ["2020-08-19", "yesterday", "2020-13-01T00:00:00Z", "", "2020-08-19T08:38:00"]
 
 
